@@ -63,28 +63,50 @@ def keyLe {β} (key : β → String) (a b : β) : Bool := !decide (key b < key a
 def canon {β} (same : β → β → Bool) (key : β → String) (l : List β) : List β :=
   isort (keyLe key) (dedupSame same l)
 
+/-- `NamedQuery(name, None)`: a bare path used as a predicate ("the attribute exists") -/
+def isBare {α} : Q α → Bool
+  | .named _ _ (.and []) => true
+  | _ => false
+
+def isNoCondition {α} : Q α → Bool
+  | .and [] => true
+  | _ => false
+
+/-- named queries that take part in merging. `bare = true` (repaired, fixes/C10-bare-path-in-junction.patch): under
+`Or` a named query without other condition is not merged; `bare = false` (pinned commit): it is, and its missing
+condition is skipped - which loses the alternative "the attribute exists". Under `And` it is merged in both (its
+missing condition is an empty conjunction). -/
+def mergeableS {α} (cfg : Cfg) (bare isAnd : Bool) (q : Q α) : Bool :=
+  mergeable cfg q && !(bare && !isAnd && isBare q)
+
+/-- the other condition handed to the merged junction (`if condition is None: continue`) -/
+def otherS {α} : Bool → Q α → Option (Q α)
+  | true, q => q.other
+  | false, q => q.other.filter (fun c => !isNoCondition c)
+
 /-- `And(*cs)` / `Or(*cs)` with the conditions held in a set -/
-def mkJS {α} (cfg : Cfg) (same : Q α → Q α → Bool) (key : Q α → String) : Nat → Bool → List (Q α) → Q α
+def mkJS {α} (cfg : Cfg) (bare : Bool) (same : Q α → Q α → Bool) (key : Q α → String) : Nat → Bool → List (Q α) → Q α
   | 0, isAnd, cs => junction isAnd cs
   | fuel + 1, isAnd, cs =>
     let fl := flat isAnd cs
-    let nameds := fl.filter (mergeable cfg)
-    let others := fl.filter (fun c => !mergeable cfg c)
+    let nameds := fl.filter (mergeableS cfg bare isAnd)
+    let others := fl.filter (fun c => !mergeableS cfg bare isAnd c)
     let keys := dedupKeys (nameds.map (groupKey isAnd))
     let merged := keys.map fun k =>
-      Q.named k.1 false (mkJS cfg same key fuel isAnd ((nameds.filter (fun c => groupKey isAnd c == k)).filterMap Q.other))
+      Q.named k.1 false (mkJS cfg bare same key fuel isAnd
+        ((nameds.filter (fun c => groupKey isAnd c == k)).filterMap (otherS bare)))
     collapse isAnd (canon same key (others ++ merged))
 
-def compileS {α} (cfg : Cfg) (same : Q α → Q α → Bool) (key : Q α → String) (fuel : Nat) : Pred α → Q α
+def compileS {α} (cfg : Cfg) (bare : Bool) (same : Q α → Q α → Bool) (key : Q α → String) (fuel : Nat) : Pred α → Q α
   | .path n ns leaf => pathQ (n :: ns) leaf
   | .fitc c => .fitc c
-  | .and x y => mkJS cfg same key fuel true [compileS cfg same key fuel x, compileS cfg same key fuel y]
-  | .or x y => mkJS cfg same key fuel false [compileS cfg same key fuel x, compileS cfg same key fuel y]
-  | .not x => invert (compileS cfg same key fuel x)
+  | .and x y => mkJS cfg bare same key fuel true [compileS cfg bare same key fuel x, compileS cfg bare same key fuel y]
+  | .or x y => mkJS cfg bare same key fuel false [compileS cfg bare same key fuel x, compileS cfg bare same key fuel y]
+  | .not x => invert (compileS cfg bare same key fuel x)
 
 /-- the predicate object `Aggregator.query(p)` holds -/
-def compileSTop {α} (cfg : Cfg) (same : Q α → Q α → Bool) (key : Q α → String) (p : Pred α) : Q α :=
-  compileS cfg same key (p.depth + 1) p
+def compileSTop {α} (cfg : Cfg) (bare : Bool) (same : Q α → Q α → Bool) (key : Q α → String) (p : Pred α) : Q α :=
+  compileS cfg bare same key (p.depth + 1) p
 
 /-! ## the SQL text -/
 
@@ -132,8 +154,10 @@ def isAttributeQuery {α} : Q α → Bool
 /-- `"SELECT parent_id FROM {tables_string} WHERE {NameCondition(name) & other}"` given the strings of the
 flattened other condition -/
 def namedQueryText (n : String) (t : Tables) (parts : List String) : String :=
-  "SELECT parent_id FROM " ++ tablesString t ++ " WHERE (" ++
-    " AND ".intercalate (sortStrs (("o.name = '" ++ n ++ "'") :: parts)) ++ ")"
+  match parts with
+  | [] => "SELECT parent_id FROM " ++ tablesString t ++ " WHERE o.name = '" ++ n ++ "'"   -- the name alone
+  | _ => "SELECT parent_id FROM " ++ tablesString t ++ " WHERE (" ++
+      " AND ".intercalate (sortStrs (("o.name = '" ++ n ++ "'") :: parts)) ++ ")"
 
 def joinWord (isAnd : Bool) : String := if isAnd then " AND " else " OR "
 
@@ -202,20 +226,31 @@ end
 /-! ## tests (compiler-evaluated) : the text of the real objects, copied from a python session -/
 
 -- `(g.centre == 1) & (g.sigma == 2.5)`
-#guard fitSql (fun (n : Nat) => toString n) (mkJS {} (fun a b => Q.same a b) (sqlStr toString) 3 true
+#guard fitSql (fun (n : Nat) => toString n) (mkJS {} true (fun a b => Q.same a b) (sqlStr toString) 3 true
     [pathQ ["g", "centre"] (.num .eq 1), pathQ ["g", "sigma"] (.num .eq 2)]) =
   "SELECT id FROM fit WHERE instance_id IN (SELECT parent_id FROM object AS o WHERE (o.id IN (SELECT parent_id FROM object AS o JOIN value AS v ON o.id = v.id WHERE (o.name = 'centre' AND v.value = 1)) AND o.id IN (SELECT parent_id FROM object AS o JOIN value AS v ON o.id = v.id WHERE (o.name = 'sigma' AND v.value = 2)) AND o.name = 'g'))"
 -- `~(g.centre == 1) & (g.sigma == None)`
-#guard fitSql (fun (n : Nat) => toString n) (mkJS {} (fun a b => Q.same a b) (sqlStr toString) 3 true
+#guard fitSql (fun (n : Nat) => toString n) (mkJS {} true (fun a b => Q.same a b) (sqlStr toString) 3 true
     [invert (pathQ ["g", "centre"] (.num .eq 1)), pathQ ["g", "sigma"] .nul]) =
   "SELECT id FROM fit WHERE id IN (SELECT id FROM fit WHERE instance_id IN (SELECT parent_id FROM object AS o WHERE (o.id IN (SELECT parent_id FROM none AS n JOIN object AS o ON n.id = o.id WHERE (1 = 1 AND o.name = 'sigma')) AND o.name = 'g'))) AND id IN (SELECT id FROM fit WHERE instance_id NOT IN (SELECT parent_id FROM object AS o WHERE (o.id IN (SELECT parent_id FROM object AS o JOIN value AS v ON o.id = v.id WHERE (o.name = 'centre' AND v.value = 1)) AND o.name = 'g')))"
 -- `(g.centre == 1) & (g.centre == "a")`: three tables
-#guard fitSql (fun (n : Nat) => toString n) (mkJS {} (fun a b => Q.same a b) (sqlStr toString) 3 true
+#guard fitSql (fun (n : Nat) => toString n) (mkJS {} true (fun a b => Q.same a b) (sqlStr toString) 3 true
     [pathQ ["g", "centre"] (.num .eq 1), pathQ ["g", "centre"] (.str .eq "a")]) =
   "SELECT id FROM fit WHERE instance_id IN (SELECT parent_id FROM object AS o WHERE (o.id IN (SELECT parent_id FROM object AS o JOIN string_value AS sv ON o.id = sv.id JOIN value AS v ON o.id = v.id WHERE (o.name = 'centre' AND sv.value = 'a' AND v.value = 1)) AND o.name = 'g'))"
 -- `(g.centre == 1) & (info["k"] == "v")` : `str()` (used for hashing / sorting only)
-#guard sqlStr (fun (n : Nat) => toString n) (mkJS {} (fun a b => Q.same a b) (sqlStr toString) 3 true
+#guard sqlStr (fun (n : Nat) => toString n) (mkJS {} true (fun a b => Q.same a b) (sqlStr toString) 3 true
     [pathQ ["g", "centre"] (.num .eq 1), .fitc (.info "k" "v")]) =
   "(SELECT fit_id FROM info WHERE key = 'k' AND value = 'v' AND o.id IN (SELECT parent_id FROM object AS o WHERE (o.id IN (SELECT parent_id FROM object AS o JOIN value AS v ON o.id = v.id WHERE (o.name = 'centre' AND v.value = 1)) AND o.name = 'g')))"
+
+-- `g` alone, `g & (g.centre == 1)` repaired (not merged) and pinned (merged)
+#guard fitSql (fun (n : Nat) => toString n) (pathQ ["g"] .any) =
+  "SELECT id FROM fit WHERE instance_id IN (SELECT parent_id FROM object AS o WHERE o.name = 'g')"
+#guard fitSql (fun (n : Nat) => toString n) (mkJS {} false (fun a b => Q.same a b) (sqlStr toString) 3 true
+    [pathQ ["g"] .any, pathQ ["g", "centre"] (.num .eq 1)]) =
+  "SELECT id FROM fit WHERE instance_id IN (SELECT parent_id FROM object AS o WHERE (o.id IN (SELECT parent_id FROM object AS o JOIN value AS v ON o.id = v.id WHERE (o.name = 'centre' AND v.value = 1)) AND o.name = 'g'))"
+#guard (mkJS {} true (fun a b => Q.same a b) (sqlStr toString) 3 false
+    [pathQ ["g"] (Leaf.any (α := Nat)), pathQ ["g", "centre"] (.num .eq 1)]).render = "|[g(centre(V)),g(&[])]"
+#guard (mkJS {} false (fun a b => Q.same a b) (sqlStr toString) 3 false
+    [pathQ ["g"] (Leaf.any (α := Nat)), pathQ ["g", "centre"] (.num .eq 1)]).render = "g(centre(V))"
 
 end AF.Query
